@@ -402,6 +402,13 @@ func (cv CertValidity) toTimeStruct() (config.CertificateValidity, error) {
 		}
 	}
 
+	//X.509 (and the config hash) can only express years 0-9999
+	for _, t := range []time.Time{out.From, out.Until} {
+		if t.Year() < 0 || t.Year() > 9999 {
+			return out, errors.New(`config-v1: validity period reaches beyond the year 9999`)
+		}
+	}
+
 	return out, nil
 }
 
